@@ -37,15 +37,22 @@ def with_path(obj, path, value):
   return obj
 
 
-def shrink(case, run_and_match, candidates_fn, budget=300):
-  """Greedy: take the first candidate that still matches, restart."""
+def shrink(case, run_and_match, candidates_fn, budget=300, max_seconds=45.0):
+  """Greedy: take the first candidate that still matches, restart.
+
+  Bounded by a re-execution budget AND by wall time (big cases are slow to
+  re-run; minimisation is a convenience and must never starve the report).
+  The clock only decides when to STOP shrinking, never what a run does.
+  """
+  import time
+  t0 = time.monotonic()
   execs = 0
   improved = True
   while improved and execs < budget:
     improved = False
     for cand in candidates_fn(case):
-      if execs >= budget:
-        break
+      if execs >= budget or time.monotonic() - t0 > max_seconds:
+        return case, execs
       execs += 1
       if run_and_match(cand):
         case = cand
